@@ -68,16 +68,33 @@ def maps(obj, x, clamp, a, b, r0, r1):
 
 
 def inv_scale(obj, clamp):
-    """Inv-scale(obj): its mapping is the affine map through the end points of the domain and range it REPORTS now."""
+    """Inv-scale(obj): its mapping is the affine map through the end points of the domain and range it REPORTS now.
+    Stated over what the PUBLIC methods return for the two domain ends and for two symbolic probes xq, yq (parameters of the
+    contract, hence universally quantified): the calls are made by the contract's epilogue (inv_epilogue), i.e. executed like
+    code, so a representation that fills a cache on first use is handled like any other state change."""
     a, b, r0, r1 = ("%s._domain[0]" % obj, "%s._domain[1]" % obj, "%s._range[0]" % obj, "%s._range[1]" % obj)
     return [
-        ("inv.endpoint0", "implies({a} != {b}, {o}.scale({a}) == {r0})".format(o=obj, a=a, b=b, r0=r0)),
-        ("inv.endpoint1", "implies({a} != {b}, {o}.scale({b}) == {r1})".format(o=obj, a=a, b=b, r1=r1)),
-        ("inv.affine", "forall(lambda x: implies({a} != {b}, {m}), 'real')".format(a=a, b=b, m=maps(obj, "x", clamp, a, b, r0, r1))),
-        ("inv.inverse", "forall(lambda y: implies({r0} != {r1}, {o}.invert(y) == {f}), 'real')".format(
-            o=obj, r0=r0, r1=r1, f=(CLAMPED if clamp else AFF).format(x="y", a=r0, b=r1, r0=a, r1=b))),
+        ("inv.endpoint0", "implies({a} != {b}, _ia == {r0})".format(a=a, b=b, r0=r0)),
+        ("inv.endpoint1", "implies({a} != {b}, _ib == {r1})".format(a=a, b=b, r1=r1)),
+        ("inv.affine", "implies({a} != {b}, _ix == {f})".format(a=a, b=b, f=(CLAMPED if clamp else AFF).format(x="xq", a=a, b=b, r0=r0, r1=r1))),
+        ("inv.inverse", "implies({r0} != {r1}, _iy == {f})".format(
+            r0=r0, r1=r1, f=(CLAMPED if clamp else AFF).format(x="yq", a=r0, b=r1, r0=a, r1=b))),
         ("inv.two_ends", "len(%s._domain) == 2 and len(%s._range) == 2" % (obj, obj)),
     ]
+
+
+def inv_epilogue(obj):
+    return ("_ia = {o}.scale({o}._domain[0])\n_ib = {o}.scale({o}._domain[1])\n_ix = {o}.scale(xq)\n_iy = {o}.invert(yq)\n").format(o=obj)
+
+
+def _attach_inv_epilogues():
+    """every contract that states Inv-scale gets the probe parameters and the epilogue that makes the calls"""
+    for k, c in CONTRACTS.items():
+        names = [n for (n, _) in [e for e in c.get("ensures", []) if isinstance(e, tuple)]]
+        if "inv.endpoint0" in names and "epilogue" not in c:
+            obj = "result" if k.startswith("scale.LinearScale.copy@") else "self"
+            c["epilogue"] = inv_epilogue(obj)
+            c["params"] = dict(c.get("params", {}), xq="real", yq="real")
 
 
 def _shared_range(E, P, env, setup, get_linear=lambda p, s: s):
@@ -249,6 +266,7 @@ def _add_linear_scale_contracts():
 
 
 _add_linear_scale_contracts()
+_attach_inv_epilogues()
 
 SPECFUNS = {}
 LEMMAS = {}
@@ -406,8 +424,9 @@ CONTRACTS["scale.TimeScale.domain@set"] = {
     "params": {"x": ["list", "dt", "dt"]},
     "ensures": [("maps_domain_instants_to_range_ends", "implies(us(x[0]) != us(x[1]), self._linear.scale(us(x[0]) / 1000) == sr0 and self._linear.scale(us(x[1]) / 1000) == sr1)"),
                 # ... and the inverse map follows the new domain as well (also on a scale that has inverted values before)
-                ("inverts_range_ends_to_new_domain_instants", "implies(us(x[0]) != us(x[1]) and sr0 != sr1, self._linear.invert(sr0) == us(x[0]) / 1000 and self._linear.invert(sr1) == us(x[1]) / 1000)"),
+                ("inverts_range_ends_to_new_domain_instants", "implies(us(x[0]) != us(x[1]) and sr0 != sr1, _i0 == us(x[0]) / 1000 and _i1 == us(x[1]) / 1000)"),
                 ("returns_self", "result is self")],
+    "epilogue": "_i0 = self._linear.invert(sr0)\n_i1 = self._linear.invert(sr1)\n",
 }
 CONTRACTS["scale.TimeScale.range@set"] = {
     "props": ["C15"], "inline": True, "setup": setup_time_scale, "func_alias": "scale.TimeScale.range",
